@@ -179,6 +179,8 @@ type liar struct{ N int }
 
 func (l liar) IsZero() bool { return l.N%2 == 0 }
 
+type bigElem [1100]int64
+
 type fstruct struct {
 	F float64
 	P *int
@@ -386,6 +388,19 @@ func main() {
 		nz := math.Copysign(0, -1)
 		f64 := func(a, b float64) bool { return math.Float64bits(a) == math.Float64bits(b) }
 		typedSplice(e, "int", []int{0, 1, 2, 3, -1}, func(a, b int) bool { return a == b })
+		// element sizes: zero-size elements (all values equal: lengths and capacities are what is left to
+		// check), one-byte elements, and elements larger than a memory page
+		typedSplice(e, "struct{}", []struct{}{{}, {}}, func(a, b struct{}) bool { return true })
+		typedSplice(e, "[0]int", [][0]int{{}, {}}, func(a, b [0]int) bool { return true })
+		typedSplice(e, "bool", []bool{false, true, true, false, true}, func(a, b bool) bool { return a == b })
+		{
+			mkBig := func(tag int) bigElem {
+				var b bigElem
+				b[0], b[len(b)/2], b[len(b)-1] = int64(tag), int64(-tag), int64(tag*7)
+				return b
+			}
+			typedSplice(e, "[1100]int64 (8800 bytes)", []bigElem{mkBig(0), mkBig(1), mkBig(2), mkBig(3)}, func(a, b bigElem) bool { return a == b })
+		}
 		typedSplice(e, "float64", []float64{nz, 0, math.NaN(), 1.5, math.Inf(-1)}, f64)
 		typedSplice(e, "float32", []float32{float32(nz), 0, float32(math.NaN()), 2.5}, func(a, b float32) bool { return math.Float32bits(a) == math.Float32bits(b) })
 		typedSplice(e, "complex128", []complex128{complex(nz, 0), complex(0, nz), 0, complex(1, nz)}, func(a, b complex128) bool { return f64(real(a), real(b)) && f64(imag(a), imag(b)) })
